@@ -50,6 +50,25 @@ def handle(req):
             except Exception:
                 pass                 # e.g. a sort_keys flip on a mixed-key value: the history is what matters
             continue
+        if prc and prc[0] == 'failwrite':
+            # a dump into a stream whose write() fails after a few calls (disk full): the call is cut short inside the
+            # serializer / emitter, after anchors were handed out
+            class _Full:
+                def __init__(self, n):
+                    self.n = n
+
+                def write(self, data):
+                    self.n -= 1
+                    if self.n < 0:
+                        raise OSError(28, 'No space left on device')
+            try:
+                o = dict(opts)
+                if 'version' in o:
+                    o['version'] = tuple(o['version'])
+                yaml.dump(values.build(prc[1]), _Full(prc[2]), Dumper=getattr(yaml, dumper), **o)
+            except Exception:
+                pass
+            continue
         if prc and prc[0] == 'fail':
             try:
                 o = dict(opts)
@@ -192,6 +211,29 @@ def _multidoc(req, x, t, dumper, opts):
                 if a != b:
                     return {'document': n, 'event': i, 'alone': a, 'in_stream': b}
             return {'document': n, 'events': [len(alone[0]), len(docs[n])]}
+    # ... also when the SAME container object is written twice with other contents (a record that is refilled and
+    # yielded again): document 2 of dump_all(gen) equals dump([x]) of a fresh list
+    try:
+        w5 = values.build(req['sibling'], perm=req['perms'][0]) if req.get('sibling') is not None else {'p': [0]}
+        x5 = values.build(req['recipe'], perm=req['perms'][0])
+        x6 = values.build(req['recipe'], perm=req['perms'][0])
+
+        def refilled():
+            holder = [w5]
+            yield holder
+            holder[0] = x5
+            yield holder
+        ev = _doc_events(yaml.dump_all(refilled(), Dumper=getattr(yaml, dumper), **o))
+        alone2 = _doc_events(yaml.dump([x6], Dumper=getattr(yaml, dumper), **o))
+    except yaml.YAMLError as exc:
+        return {'error': type(exc).__name__, 'where': 'refilled-container'}
+    if len(ev) != 2 or len(alone2) != 1:
+        return {'where': 'refilled-container', 'documents': [len(ev), len(alone2)]}
+    if ev[1] != alone2[0]:
+        for i, (a, b) in enumerate(zip(alone2[0], ev[1])):
+            if a != b:
+                return {'where': 'refilled-container (same list object yielded twice with other contents)', 'event': i, 'alone': a, 'in_stream': b}
+        return {'where': 'refilled-container', 'events': [len(alone2[0]), len(ev[1])]}
     # ... and inside ONE document, at the level of the representation graph (the emitted text of a nested value
     # legitimately depends on its indentation through line folding): the node the representer builds for x as the
     # second item of [sibling, x] equals the node it builds for x alone.  Evaluated for values without shared or
